@@ -309,6 +309,7 @@ pub fn child(args: &Args) {
     let idle: usize = args.flag("idle").map(|v| v.parse().unwrap()).unwrap_or(0);
     let late = args.flag("late").is_some();
     let boom = args.flag("boom").is_some();
+    let churn: u64 = args.flag("churn").map(|v| v.parse().unwrap()).unwrap_or(0);
     let _ = OUT_PATH.set(args.out.clone());
     if args.flag("sigign").is_some() {
         // the process starts with SIGINT ignored, as a background job of a non-interactive shell does
@@ -413,6 +414,25 @@ pub fn child(args: &Args) {
                     idles.push(c);
                 }
             }
+            // connection churn before the interrupt: many short sessions from several clients end on the runtime's worker threads while the
+            // accept loop keeps registering new ones (the wait group that `howl` waits on is shared between them)
+            if churn > 0 {
+                let hs: Vec<_> = (0..8).map(|_| std::thread::spawn(move || {
+                    let mut done = 0u64;
+                    for _ in 0..churn {
+                        if let Ok(mut c) = TcpStream::connect(("127.0.0.1", port)) {
+                            let _ = c.write_all(b"GET /fast HTTP/1.1\r\nHost: t\r\nConnection: close\r\n\r\n");
+                            c.set_read_timeout(Some(Duration::from_secs(5))).ok();
+                            let mut b = [0u8; 512];
+                            while let Ok(n) = c.read(&mut b) { if n == 0 { break } }
+                            done += 1;
+                        }
+                    }
+                    done
+                })).collect();
+                let total: u64 = hs.into_iter().map(|h| h.join().unwrap_or(0)).sum();
+                log(format!("churn_done:{total}"));
+            }
             // all slow handlers started?
             let t = Instant::now();
             while LOG.lock().unwrap().iter().filter(|(_, e)| e.starts_with("handler_start:")).count() < sessions && t.elapsed() < Duration::from_secs(5) {
@@ -488,7 +508,7 @@ pub fn child(args: &Args) {
         let _ = std::fs::write(&out, serde_json::to_vec(&doc).unwrap());
         unsafe { libc::_exit(0) }
     });
-    let rt = tokio::runtime::Builder::new_multi_thread().worker_threads(3).enable_all().build().unwrap();
+    let rt = tokio::runtime::Builder::new_multi_thread().worker_threads(if churn > 0 { 8 } else { 3 }).enable_all().build().unwrap();
     rt.block_on(Wrap(Box::pin(app().howl(("127.0.0.1", port)))));
     log("howl_returned");
     HOWL_RETURNED.store(true, Ordering::SeqCst);
@@ -562,11 +582,14 @@ pub fn run(args: &Args, rep: &mut Report) {
         // scenario 0 is the witness of C18-X2 (connections ready at the poll that has to notice the interrupt)
         if rng.bool() || s == 0 { ex.push(("late", "1".into())) }
         if rng.chance(1, 3) { ex.push(("boom", "1".into())) }
+        // scenarios 2 and 3 always, others sometimes: connection churn from 8 clients before the interrupt
+        if s == 2 || s == 3 || rng.chance(1, 6) { ex.push(("churn", if s == 3 { "400".into() } else { "150".to_string() })) }
         // scenario 1 always, others sometimes: the process inherited SIG_IGN for SIGINT
         if s == 1 || rng.chance(1, 4) { ex.push(("sigign", "1".into())) }
         let b = ex.iter().any(|(k, _)| *k == "boom");
         let ign = ex.iter().any(|(k, _)| *k == "sigign");
-        work.push((format!("sess:{s}:n{n}:idle{idle}{}{}", if ign { ":sigign" } else { "" }, if b { ":boom" } else { "" }), ex));
+        let ch = ex.iter().any(|(k, _)| *k == "churn");
+        work.push((format!("sess:{s}:n{n}:idle{idle}{}{}{}", if ign { ":sigign" } else { "" }, if ch { ":churn" } else { "" }, if b { ":boom" } else { "" }), ex));
     }
     for (i, (name, extra)) in work.iter().enumerate() {
         if (i as u64) % args.nshards != args.shard || (i as u64) < args.start {
@@ -627,6 +650,12 @@ fn judge(rep: &mut Report, idx: u64, name: &str, doc: &Value) {
     }
     if name.contains(":sigign") {
         rep.count("scenarios_started_with_sigint_ignored");
+    }
+    if name.contains(":churn") {
+        rep.count("scenarios_with_connection_churn");
+        if let Some(n) = log.iter().find_map(|(_, e)| e.strip_prefix("churn_done:").and_then(|x| x.parse::<u64>().ok())) {
+            rep.count_n("churn_sessions_completed_before_the_interrupt", n);
+        }
     }
     let cj = || json!({"case_index": idx, "scenario": name, "verdict": v, "log_tail": log.iter().rev().take(60).rev().map(|(s, e)| format!("{s}:{e}")).collect::<Vec<_>>()});
     match v["mode"].as_str() {
